@@ -137,7 +137,7 @@ public:
     const XalanDOMString&
     getLanguageString() const
     {
-        return *m_languageString;
+        return m_languageString;
     }
 
 private:
@@ -153,7 +153,9 @@ private:
 
     const PrefixResolver*               m_prefixResolver;
 
-    const XalanDOMString*               m_languageString;
+    // Each key owns a copy of its language: the caller's string is a
+    // scratch buffer that is reused for the next xsl:sort.
+    XalanDOMString                      m_languageString;
 };
 
 
